@@ -189,6 +189,15 @@ def build_harness(profile="dev"):
     return rc, out, binp
 
 
+def build_binary():
+    """the real nun-db binary from /repo's working tree, production configuration (no cfg flag)"""
+    with Lock("cargo-bin"):
+        env = dict(os.environ)
+        env.update({"CARGO_NET_OFFLINE": "true", "CARGO_TARGET_DIR": os.path.join(CACHE, "target_bin"), "RUSTFLAGS": "-Awarnings"})
+        rc, out = sh(["cargo", "build", "--offline", "-q", "--bin", "nun-db"], cwd=REPO, env=env, timeout=3000)
+    return rc, out, os.path.join(CACHE, "target_bin", "debug", "nun-db")
+
+
 def build_modelrun():
     """extract the Coq models and compile the OCaml driver (only when stale)"""
     with Lock("modelrun"):
